@@ -210,7 +210,8 @@ func ggDescribeAt(p *packages.Package, fn *ast.FuncDecl, e ast.Expr, pos token.P
 }
 
 func ggDescribe(p *packages.Package, fn *ast.FuncDecl, e ast.Expr) string {
-	return ggDescribeAt(p, fn, e, e.Pos(), 0)
+	// receiver / parameters / range variables by position, locals by definition (area_grpcgun_net.go)
+	return grpcgunNetDescribe(p, fn, grpcgunNetAliases(p, fn), e, e.Pos(), 0)
 }
 
 type ggTimeout struct {
@@ -292,9 +293,9 @@ func ggTimeoutShape(p *packages.Package, fn *ast.FuncDecl) (res ggTimeout, ctxCh
 		res.why = "condition operator: " + ggSrc(p, ifs.Cond)
 		return
 	}
-	res.conf = ggSrc(p, be.X)
+	res.conf = ggDescribe(p, fn, be.X)
 	as := ifs.Body.List[0].(*ast.AssignStmt)
-	if ggSrc(p, as.Rhs[0]) != res.conf || !strings.HasSuffix(res.conf, ".Timeout") {
+	if ggDescribe(p, fn, as.Rhs[0]) != res.conf || !strings.HasSuffix(res.conf, ".Timeout") {
 		res.why = "assigned value differs from the tested one: " + ggSrc(p, ifs)
 		return
 	}
@@ -444,7 +445,7 @@ func grpcGunExtra(t *tr) string {
 		invs := ggCallsSuffix(p, fn.Body, ".InvokeRpc")
 		method, message, msgFill, stub := "unrecognised", "unrecognised", "unrecognised", "unrecognised"
 		if len(invs) == 1 && len(invs[0].Args) == 3 {
-			stub = ggSrc(p, invs[0].Fun)
+			stub = ggDescribe(p, fn, invs[0].Fun)
 			if u, ok := invs[0].Args[1].(*ast.UnaryExpr); ok && u.Op == token.AND {
 				method = ggDescribe(p, fn, u.X)
 			}
@@ -490,7 +491,7 @@ func grpcGunExtra(t *tr) string {
 	sameVar := false
 	if len(aps) == 1 && len(aps[0].Args) == 5 {
 		rendered = ggDescribe(sp, step, aps[0].Args[1])
-		applyArgs = ggSrc(sp, aps[0].Args[0]) + "," + ggSrc(sp, aps[0].Args[3]) + "," + ggSrc(sp, aps[0].Args[4])
+		applyArgs = ggDescribe(sp, step, aps[0].Args[0]) + "," + ggDescribe(sp, step, aps[0].Args[3]) + "," + ggDescribe(sp, step, aps[0].Args[4])
 		mds := ggCalls(sp, step.Body, "metadata.New")
 		if len(mds) == 1 && len(mds[0].Args) == 1 {
 			o1, o2 := ggObj(sp, aps[0].Args[1]), ggObj(sp, mds[0].Args[0])
@@ -540,7 +541,7 @@ func grpcGunExtra(t *tr) string {
 		for _, c := range ggCallsSuffix(sp, ap2.Body, ".getTemplate") {
 			var as []string
 			for _, a := range c.Args {
-				as = append(as, ggSrc(sp, a))
+				as = append(as, ggDescribe(sp, ap2, a))
 			}
 			gets = append(gets, strings.Join(as, " | "))
 		}
@@ -562,17 +563,18 @@ func grpcGunExtra(t *tr) string {
 	inPlace := "unrecognised"
 	if ap2 != nil {
 		n := 0
+		al := grpcgunNetAliases(sp, ap2)
 		ast.Inspect(ap2.Body, func(x ast.Node) bool {
 			if as, ok := x.(*ast.AssignStmt); ok {
 				for _, l := range as.Lhs {
-					if ix, ok := l.(*ast.IndexExpr); ok && ggSrc(sp, ix.X) == "metadata" {
+					if ix, ok := l.(*ast.IndexExpr); ok && al[ggObj(sp, ix.X)] == "$1" {
 						n++
 					}
 				}
 			}
 			return true
 		})
-		inPlace = fmt.Sprintf("%d index assignment(s) to parameter metadata", n)
+		inPlace = fmt.Sprintf("%d index assignment(s) to parameter $1 (the metadata map)", n)
 	}
 	b.WriteString("/-- `TextTemplater.Apply` stores the rendered values into the map it was given -/\ndef templaterWrites : String := " + ggQuote(inPlace) + "\n\n")
 
@@ -585,25 +587,25 @@ func grpcGunExtra(t *tr) string {
 				var thenA, elseA []string
 				ast.Inspect(i.Body, func(x ast.Node) bool {
 					if as, ok := x.(*ast.AssignStmt); ok && ggSrc(gp, as.Lhs[0]) == "g.Stub" {
-						thenA = append(thenA, ggSrc(gp, as.Rhs[0]))
+						thenA = append(thenA, ggDescribe(gp, bind, as.Rhs[0]))
 					}
 					return true
 				})
 				if i.Else != nil {
 					ast.Inspect(i.Else, func(x ast.Node) bool {
 						if as, ok := x.(*ast.AssignStmt); ok && ggSrc(gp, as.Lhs[0]) == "g.Stub" {
-							elseA = append(elseA, ggSrc(gp, as.Rhs[0]))
+							elseA = append(elseA, ggDescribe(gp, bind, as.Rhs[0]))
 						}
 						return true
 					})
 				}
-				bindShape = "if " + ggSrc(gp, i.Cond) + " then " + strings.Join(thenA, ";") + " else " + strings.Join(elseA, ";")
+				bindShape = "if " + ggDescribe(gp, bind, i.Cond) + " then " + strings.Join(thenA, ";") + " else " + strings.Join(elseA, ";")
 			}
 		}
 		var svc []string
 		ast.Inspect(bind.Body, func(x ast.Node) bool {
 			if as, ok := x.(*ast.AssignStmt); ok && ggSrc(gp, as.Lhs[0]) == "g.Services" {
-				svc = append(svc, ggSrc(gp, as.Rhs[0]))
+				svc = append(svc, ggDescribe(gp, bind, as.Rhs[0]))
 			}
 			return true
 		})
